@@ -690,6 +690,16 @@ theorem act_workerRelease {s s' : State} {i : Nat} {c c' : Conn} (hinv : Inv s) 
           | srv_conn hci
   · cases h
 
+theorem act_dupClose {s s' : State} {i : Nat} {c c' : Conn} (hinv : Inv s) (hc : s.conns[i]? = some c)
+    (h : act s c .dupClose = some (s', c')) : Inv { s' with conns := s.conns.set i c' } := by
+  have hci := hinv.cn c (List.mem_of_getElem? hc)
+  simp only [act] at h
+  split at h
+  · cases h
+    exact inv_update hinv hc _ _ _ _ rfl rfl (fun _ => rfl) (h4_same hinv (fun _ => rfl)) (Or.inl (Nat.le_refl _))
+      (fun _ => Or.inl (Nat.le_refl _)) rfl hci
+  · cases h
+
 /-- every critical section of a connection preserves the invariant -/
 theorem inv_act {s s' : State} {i : Nat} {c c' : Conn} (a : Act) (hinv : Inv s) (hc : s.conns[i]? = some c)
     (h : act s c a = some (s', c')) : Inv { s' with conns := s.conns.set i c' } := by
@@ -714,6 +724,7 @@ theorem inv_act {s s' : State} {i : Nat} {c c' : Conn} (a : Act) (hinv : Inv s) 
   case hijackReturn => exact act_hijackReturn hinv hc h
   case hijackClose err => exact act_hijackClose hinv hc h
   case userClose err => exact act_userClose hinv hc h
+  case dupClose => exact act_dupClose hinv hc h
 
 /-- a critical section never changes who the connection is, the configuration, or the set of pools -/
 theorem act_frame {s s' : State} {c c' : Conn} {a : Act} (h : act s c a = some (s', c')) :
